@@ -308,6 +308,8 @@ def solver_failures_mapped(p, rep, rid):
                     rep.violation(rid, hkey, hsite, f"handler converts the solver failure into {bad} instead of a documented einx error")
                 else:
                     rep.ok(rid, hkey, hsite, "handler ends in raise of a documented error on every path")
+            elif _inside_failing_handler(call):
+                rep.ok(rid, hkey, hsite, "diagnostic probe: the call sits inside an outer handler whose every path ends in a raise (only the error message is being refined)")
             elif _is_probe_handler(body):
                 rep.ok(rid, hkey, hsite, "probe: handler records a boolean and continues")
             elif _handler_returns_false(body):
@@ -315,6 +317,16 @@ def solver_failures_mapped(p, rep, rid):
             else:
                 rep.violation(rid, hkey, hsite, "handler for a solver failure neither raises a documented error on every path nor is a boolean probe")
     return len(sites)
+
+
+def _inside_failing_handler(node):
+    """node lies (lexically, same function) inside an except-handler body that raises on every path"""
+    for par in parents(node):
+        if isinstance(par, (ast.FunctionDef, ast.AsyncFunctionDef, ast.Lambda)):
+            return False
+        if isinstance(par, ast.ExceptHandler) and block_always_raises(par.body):
+            return True
+    return False
 
 
 def _is_probe_handler(body):
@@ -369,3 +381,79 @@ def thorough_paths(rep, label, cfg, frm, to, via, dominator_verdict=None):
     if dominator_verdict is not None and bool(skipping) == bool(dominator_verdict) and paths:
         raise AnalysisError(f"engine self-check failed ({label}): dominator verdict {dominator_verdict} but {len(skipping)} of {len(paths)} enumerated paths avoid the checkpoint")
     return len(skipping)
+
+
+def len_bounds(facts, vartext):
+    """(lo, hi) bounds on len(<vartext>) implied by dominating branch facts [(test, polarity)]:
+    understands len(v) <op> k, k <op> len(v), truthiness `v` / `not v` (hi None = unbounded)."""
+    lo, hi = 0, None
+
+    def upd(op, k, pol):
+        nonlocal lo, hi
+        # normalise to a statement about n = len(v)
+        if not pol:
+            op = {ast.Eq: ast.NotEq, ast.NotEq: ast.Eq, ast.Lt: ast.GtE, ast.LtE: ast.Gt, ast.Gt: ast.LtE, ast.GtE: ast.Lt}[type(op)]()
+        if isinstance(op, ast.Eq):
+            lo, hi = max(lo, k), (k if hi is None else min(hi, k))
+        elif isinstance(op, ast.Lt):
+            hi = k - 1 if hi is None else min(hi, k - 1)
+        elif isinstance(op, ast.LtE):
+            hi = k if hi is None else min(hi, k)
+        elif isinstance(op, ast.Gt):
+            lo = max(lo, k + 1)
+        elif isinstance(op, ast.GtE):
+            lo = max(lo, k)
+        elif isinstance(op, ast.NotEq):
+            if k == lo:
+                lo = k + 1
+            if hi is not None and k == hi:
+                hi = k - 1
+
+    def is_len(n):
+        return isinstance(n, ast.Call) and isinstance(n.func, ast.Name) and n.func.id == "len" and len(n.args) == 1 and norm(n.args[0]) == vartext
+
+    flip = {ast.Lt: ast.Gt, ast.LtE: ast.GtE, ast.Gt: ast.Lt, ast.GtE: ast.LtE, ast.Eq: ast.Eq, ast.NotEq: ast.NotEq}
+    # apply twice so that NotEq facts see bounds established by later facts
+    for _ in range(2):
+        for t, pol in facts:
+            if isinstance(t, ast.Compare) and len(t.ops) == 1 and type(t.ops[0]) in flip:
+                l, r = t.left, t.comparators[0]
+                if is_len(l) and isinstance(r, ast.Constant) and isinstance(r.value, int):
+                    upd(t.ops[0], r.value, pol)
+                elif is_len(r) and isinstance(l, ast.Constant) and isinstance(l.value, int):
+                    upd(flip[type(t.ops[0])](), l.value, pol)
+            elif norm(t) == vartext:
+                upd(ast.GtE() if pol else ast.Eq(), 1 if pol else 0, True)
+    return lo, hi
+
+
+def with_helpers(p, f, depth=2, same_module_only=True):
+    """f plus the project functions it calls (methods of its own class via self.<m>(), module-level functions of
+    the same module, nested defs), transitively up to `depth`: lets rules see through extracted helpers."""
+    out, seen = [f], {f}
+    frontier = [f]
+    for _ in range(depth):
+        nxt = []
+        for g in frontier:
+            selfname = g.node.args.args[0].arg if g.cls is not None and g.node.args.args else None
+            for n in walk_no_nested(g.node):
+                if not isinstance(n, ast.Call):
+                    continue
+                tgt = None
+                if selfname and isinstance(n.func, ast.Attribute) and isinstance(n.func.value, ast.Name) and n.func.value.id == selfname:
+                    tgt = p.lookup_method(g.cls, n.func.attr)
+                else:
+                    r = resolve_callee(p, n, g.module)
+                    if r and r[0] == "func":
+                        tgt = r[1]
+                if tgt is not None and tgt not in seen and (not same_module_only or tgt.module is f.module):
+                    seen.add(tgt)
+                    out.append(tgt)
+                    nxt.append(tgt)
+        frontier = nxt
+    return out
+
+
+def nodes_of(funcs):
+    for g in funcs:
+        yield from walk_no_nested(g.node)
